@@ -286,7 +286,7 @@ theorem aggResult_aligned {O : Oracles} {q : AggStmt} {st st' : AggState} {out :
     (h : aggResult O q st = .ok (st', out)) : out.Aligned := by
   unfold aggResult at h
   simp only [bind] at h
-  generalize (List.foldlM _ () (publishPercentiles st).vals : Outcome Unit) = X at h
+  generalize aggColumns O q (publishPercentiles st).vals (enumFrom 0 q.items) = X at h
   cases X with
   | ok u =>
     simp only [Outcome.bind] at h
